@@ -1,6 +1,6 @@
 (* C20 property theorems: statements closed by [exact lemma] + Print Assumptions. *)
 From V Require Import Common.Base C20.Protocol C20.ProtocolProofs C20.CtxLTS C20.CtxSpec C20.CtxProofs
-  C20.CtxMonA C20.CtxMonB C20.CtxMonC.
+  C20.CtxMonA C20.CtxMonB C20.CtxMonC C20.PluginSpec C20.Plugin C20.PluginProofs.
 
 (* writeUint32 / readUint32: little-endian round trip modulo 2^32, any trailing bytes *)
 Theorem uint32_roundtrip : forall n r, read32 (le32 n ++ r) = Some (n mod 4294967296, r).
@@ -70,3 +70,30 @@ Theorem disposed_starts_nothing : forall s a s' l,
   disposed s = true -> exec s a = Some (s', l) -> nb s' = nb s /\ disposed s' = true.
 Proof. exact disposed_no_new_build. Qed.
 Print Assumptions disposed_starts_nothing.
+
+(* Plugin callbacks within one build.  Every callback trace of the build model
+   (any scheduling of the on-start goroutines and parse goroutines, any import
+   graph, any failing on-end callback) is accepted by the specification checker
+   build_trace_prefix_ok, the function also evaluated on the callback traces
+   recorded from real builds: all on-start callbacks have ended before any
+   on-resolve/on-load/on-end begins (onstart_before_load), no identity is
+   loaded twice (load_once_per_identity), on-end callbacks run after the write,
+   in registration order, each once, none after a failed one
+   (onend_after_write_in_order). *)
+Theorem plugin_trace_sound : forall nS nE acts s' tr,
+  brun nS nE bst0 acts = Some (s', tr) -> build_trace_prefix_ok nS nE tr = true.
+Proof. exact build_prefix_sound. Qed.
+Print Assumptions plugin_trace_sound.
+
+(* ... and when the build is over, all on-end callbacks ran unless one failed *)
+Theorem plugin_trace_complete_sound : forall nS nE acts s' tr,
+  brun nS nE bst0 acts = Some (s', tr) -> bdone nE s' = true -> build_trace_ok nS nE tr = true.
+Proof. exact build_complete_sound. Qed.
+Print Assumptions plugin_trace_complete_sound.
+
+(* what acceptance means for loads: in an accepted trace the loaded module
+   identities are pairwise distinct *)
+Theorem load_once_per_identity : forall nS nE tr,
+  build_trace_prefix_ok nS nE tr = true -> NoDup (loads tr).
+Proof. exact accepted_loads_once. Qed.
+Print Assumptions load_once_per_identity.
